@@ -94,6 +94,16 @@ func String(name string, maxLen int, alphabet string) string {
 	return v
 }
 
+// Chars returns an arbitrary string of exactly n bytes drawn from alphabet
+// ("" = printable ASCII); each character is a separate input name.c<i>.
+func Chars(name string, n int, alphabet string) string {
+	b := make([]byte, n)
+	for i := range b {
+		b[i] = byte(intIn(name + ".c" + strconv.Itoa(i)))
+	}
+	return string(b)
+}
+
 // Choice returns an arbitrary value in [0,n).
 func Choice(name string, n int) int {
 	v, ok := next(name)
